@@ -63,3 +63,46 @@ Definition assigned_targets (id : Z) (tr : list (list obs)) : list (Z * bool) :=
 
 Definition msgs_of (r : list obs) : list msg :=
   flat_map (fun o => match o with OM m => [m] | _ => [] end) r.
+
+(* ---- values and their order ------------------------------------------------ *)
+From Coq Require Import QArith Qpower Qround.
+
+(* the rational a dyadic denotes *)
+Definition dy2Q (x : dy) : Q := inject_Z (fst x) * (2 # 1) ^ (snd x).
+
+(* What the proofs use of the two rounding functions (float, double) for one
+   bijection b: IEEE 754 round-to-nearest has all of it as long as nothing
+   overflows (max - min of two floats is exact when subnormal, the product of
+   a float >= 2^-149 and x/2^14 >= 2^-14 is a normal double).
+   The executable model instantiates rf, rd with r24, r53. *)
+Record rounding_ok (rf rd : dy -> dy) (b : bij) : Prop := {
+  rf_mono : forall x y, dy2Q x <= dy2Q y -> dy2Q (rf x) <= dy2Q (rf y);
+  rd_mono : forall x y, dy2Q x <= dy2Q y -> dy2Q (rd x) <= dy2Q (rd y);
+  rf_zero : forall z, dy2Q z == 0 -> dy2Q (rf z) == 0;
+  rd_zero : forall z, dy2Q z == 0 -> dy2Q (rd z) == 0;
+  (* floats (and so doubles): fixed points, whatever their spelling *)
+  rf_min : forall z, dy2Q z == dy2Q (bmin b) -> dy2Q (rf z) == dy2Q (bmin b);
+  rf_max : forall z, dy2Q z == dy2Q (bmax b) -> dy2Q (rf z) == dy2Q (bmax b);
+  rd_min : forall z, dy2Q z == dy2Q (bmin b) -> dy2Q (rd z) == dy2Q (bmin b);
+  rd_max : forall z, dy2Q z == dy2Q (bmax b) -> dy2Q (rd z) == dy2Q (bmax b);
+  (* relative error of the two roundings whose operand is not a bound *)
+  rf_err : dy2Q (rf (dysub (bmax b) (bmin b))) <=
+           dy2Q (dysub (bmax b) (bmin b)) * (1 + (1 # 16777216));
+  rd_err : forall x, (0 <= x < 16384)%Z ->
+           dy2Q (rd (dymul (x, (-14)%Z) (rf (dysub (bmax b) (bmin b))))) <=
+           dy2Q (dymul (x, (-14)%Z) (rf (dysub (bmax b) (bmin b)))) * (1 + (1 # 9007199254740992))
+}.
+
+(* order and range of message values; an 'i' message carries (int)out *)
+Definition mval_le (u v : mval) : Prop :=
+  match u, v with
+  | VInt a, VInt b => (a <= b)%Z
+  | VFloat a, VFloat b => dy2Q a <= dy2Q b
+  | _, _ => False
+  end.
+
+Definition mval_in_range (p : port) (v : mval) : Prop :=
+  match v with
+  | VFloat d => pint p = false /\ dy2Q (pmin p) <= dy2Q d <= dy2Q (pmax p)
+  | VInt z => pint p = true /\ (dytrunc (pmin p) <= z <= dytrunc (pmax p))%Z
+  end.
